@@ -186,6 +186,13 @@ fn process_dir(
                 writeln!(&mut stderr(), "Error: {err}").unwrap();
             }
             Ok(entry) => {
+                // WalkDir clamps min_depth to max_depth instead of yielding
+                // nothing for an empty range, and reports broken symlinks
+                // (turned into entries above) whatever their depth.
+                if entry.depth() < config.min_depth || entry.depth() > config.max_depth {
+                    continue;
+                }
+
                 let mut matcher_io = matchers::MatcherIO::new(deps);
 
                 let new_dir = entry.path().parent().map(|x| x.to_path_buf());
